@@ -32,9 +32,17 @@
   predicate `multiHashLeafList`; `walk_eq_enumerate_counterexample`,
   `walk_eq_enumerate_partial`.  The buffer clause holds without the exclusion.
 
-  The runtime clause is `walk_prunes_partial` (see there for what is missing).
+  * "exactly once": `walk_reports_exactly_once` (the list reported has no repetition).  The
+    theorems fix the order of the reports (table order, leftmost enumeration outermost); the
+    statement does not, and the check compares the reports as a multiset.
+  * The runtime clause is `walk_prunes` (NULL pointers and "enabled by" toggles at every depth;
+    its hypotheses `PathPrefix` / `GuardsOK` say where `port_is_enabled` is defined at all) and
+    `walk_prunes_partial` (NULL pointers only, without those hypotheses).  The model is that of
+    a library built with NDEBUG and with fixes/C09-enabled-loc-copy-size.patch: `buffer_size`
+    is not looked at; the scratch buffers `char[1024]` of `walk_ports_recurse` are modelled
+    (`SCRATCH`).
 -/
-import RtoscModel.Proofs.WalkRuntime
+import RtoscModel.Proofs.WalkGuard
 namespace Rtosc.Walk
 open Rtosc Rtosc.Path Rtosc.Match
 
@@ -68,6 +76,20 @@ theorem walk_eq_enumerate_root_partial (ts : List STree) (J : Buf) (hwf : TreeWF
     the leaves of the product of all `N` on the way (`countList`) — whatever the prefix. -/
 theorem enumerate_count (ts : List STree) (pre : Bytes) : (enumerate ts pre).length = countList ts :=
   enumList_length ts pre [] 0
+
+/-- "exactly once": no `(leaf, address)` pair occurs twice in `enumerate` -/
+theorem enumerate_nodup (ts : List STree) (hwf : TreeWF ts) (pre : Bytes) : (enumerate ts pre).Nodup :=
+  enumList_nodup ts pre [] 0 hwf
+
+/-- **walk_reports_exactly_once**: under the hypotheses of `walk_eq_enumerate_partial` the list of
+    walker calls has no repetition and its members are exactly the pairs of `enumerate`: every
+    leaf under every concrete address it answers to is reported, once, and nothing else. -/
+theorem walk_reports_exactly_once (ts : List STree) (pre J : Buf) (hwf : TreeWF ts)
+    (hk1 : multiHashLeafList ts = false) (hpre : PrefixOk pre) (hcap : needList ts ≤ J.length) :
+    ∃ calls b', walkPorts {} (toPorts ts) none (pre ++ 0 :: J) = .ok (calls, b') ∧ calls.Nodup ∧
+      ∀ c, c ∈ calls ↔ c ∈ enumerate ts pre := by
+  obtain ⟨b', h⟩ := walk_eq_enumerate_partial ts pre J hwf hk1 hpre hcap
+  exact ⟨_, b', h, enumerate_nodup ts hwf pre, fun _ => Iff.rfl⟩
 
 /-- the leaf `z#2/q#2` -/
 def k1Tree : List STree :=
@@ -151,36 +173,56 @@ theorem walked_address_dispatches_only (ts : List STree) (hwf : TreeWF ts) (hs :
     the first '#' is a prefix of the other -/
 theorem apart_of_headsApart {w v : WName} (h : headsApart w v = true) : Apart w v := apart_of_heads h
 
-/-! ## Clause 4: pruning by the runtime object (partial) -/
+/-! ## Clause 4: pruning by the runtime object -/
 
 /-- The clause as the statement reads, on the abstract runtime: a walk with a runtime object
-    reports exactly `prunedList` — `enumerate` without the sub-trees whose object pointer is
-    NULL or whose "enabled by" toggle answers false (an enabling toggle that lives inside the
-    table it disables is still reported, as ports.cpp documents).  Proved below for pruning
-    by NULL pointers on the whole tree, and for the toggles one level at a time. -/
+    reports exactly `prunedFull` — `enumerate` without the sub-trees whose object pointer is
+    NULL or whose "enabled by" port answers false (an enabling port that lives inside the
+    table it disables is still reported, as ports.cpp documents).
+    Quantified over: well-formed trees without a leaf name with several '#' (finding C09-K1);
+    table addresses "/" or "/c1/…/cn/" with ordinary components (`PathPrefix`: `collapsePath`
+    is applied to them); buffers with room for the longest address; addresses of at most 1014
+    characters (`SCRATCH`: `walk_ports_recurse` copies them into `char[1024]`); runtime
+    objects and guards for which `port_is_enabled` is defined (`GuardsOK`: metadata readable,
+    sub-tree names of one path component, every "enabled by" names a row of the table that
+    contains the guarded port or — `name/port`, name without '#' — of the guarded sub-tree's own
+    table, and the object says what that port answers and which child object every sub-tree
+    port has). -/
 def walk_prunes_statement : Prop :=
   ∀ (ts : List STree) (obj : Obj) (pre J : Buf), TreeWF ts → multiHashLeafList ts = false →
-    PrefixOk pre → needList ts ≤ J.length → RuntimeDefined ts (some obj) →
-    ∃ b', walkPorts {} (toPorts ts) (some obj) (pre ++ 0 :: J) = .ok (prunedFull pre [] (toPorts ts) ts (some obj), b')
+    PathPrefix pre → needList ts ≤ J.length → pre.length + needList ts + 10 ≤ SCRATCH → GuardsOK ts obj →
+    ∃ b', walkPorts {} (toPorts ts) (some obj) (pre ++ 0 :: J) = .ok (prunedFull pre [] (toPorts ts) ts (some obj), b') ∧
+      cstrAt b' 0 = .ok pre ∧ b'.length = (pre ++ 0 :: J).length
 
-/-- **walk_prunes_partial** (NULL pointers, whole tree): for every well-formed tree none of
+/-- **walk_prunes**: the pruning clause, for NULL pointers and toggles (T / F / integer answers)
+    at every depth; the buffer is restored as in the static walk. -/
+theorem walk_prunes : walk_prunes_statement := by
+  intro ts obj pre J hwf hmh hpre hcap hlen hg
+  obtain ⟨cs, hcs, rfl⟩ := hpre
+  obtain ⟨J', h, l⟩ := walkPorts_full ts obj cs J hwf hmh hg hcs hcap hlen
+  exact ⟨_, h, cstrAt_zero _ J' (prefix_nulfree hcs), by simp [l]⟩
+
+/-- **walk_prunes_partial** (NULL pointers, whole tree, any prefix and any sub-tree names, K1 leaves
+    included): for every well-formed tree none of
     whose ports carries an "enabled by" property (`NoGuards`), every runtime object that
     defines the child object of every sub-tree port it is asked for (`RuntimeDefined`), the
     walk reports exactly `prunedList`: a sub-tree whose object pointer is NULL is skipped,
     every other sub-tree is visited with its own child object — at every depth. -/
 theorem walk_prunes_partial (ts : List STree) (rt : Option Obj) (pre J : Buf) (hwf : TreeWF ts)
     (hng : NoGuards ts = true) (hpre : PrefixOk pre) (hcap : needList ts ≤ J.length)
-    (hdef : RuntimeDefined ts rt) :
+    (hlen : pre.length + needList ts + 10 ≤ SCRATCH) (hdef : RuntimeDefined ts rt) :
     ∃ J', walkPorts {} (toPorts ts) rt (pre ++ 0 :: J) = .ok (prunedList pre [] rt ts 0, pre ++ 0 :: J') ∧
       J'.length = J.length :=
-  walkPorts_pruned ts rt pre J hwf hng hpre hcap hdef
+  walkPorts_pruned ts rt pre J hwf hng hpre hcap hlen hdef
 
-/-- **walk_prunes_gate** (toggles, one level): what `walk_ports_recurse` decides for a sub-tree
-    port once its address is in the buffer — NULL child object: skipped without a call;
+/-- **walk_prunes_gate** (one level): what `walk_ports_recurse` decides for a sub-tree
+    port once its address (`loc`, short enough for the scratch buffer) is in the buffer — NULL
+    child object: skipped without a call;
     child object present and the "enabled by" test false: skipped (with the calls that test
     made); otherwise: the sub-table is walked with the child object. -/
 theorem walk_prunes_gate (p : PortT) (i : Nat) (b : Buf) (base : List PortT) (path : List Nat)
-    (obj : Obj) (oldEnd : Nat) (relAddr : Bytes) (hrel : cstrAt b oldEnd = .ok relAddr) :
+    (obj : Obj) (oldEnd : Nat) (loc relAddr : Bytes) (hloc : cstrAt b 0 = .ok loc) (hfit : loc.length + 10 ≤ SCRATCH)
+    (hrel : cstrAt b oldEnd = .ok relAddr) :
     (obj.kid relAddr = some none → recurseGate p i b base path (some obj) oldEnd = .ok (none, [])) ∧
     (∀ child cs, obj.kid relAddr = some (some child) →
         portIsEnabled (some (i, p)) b base path (some obj) true (some child) = .ok (false, cs) →
@@ -188,10 +230,19 @@ theorem walk_prunes_gate (p : PortT) (i : Nat) (b : Buf) (base : List PortT) (pa
     (∀ child cs, obj.kid relAddr = some (some child) →
         portIsEnabled (some (i, p)) b base path (some obj) true (some child) = .ok (true, cs) →
         recurseGate p i b base path (some obj) oldEnd = .ok (some (some child), cs)) := by
+  have hf : ¬ (loc.length + 10 > SCRATCH) := by omega
   refine ⟨?_, ?_, ?_⟩
-  · intro h; simp [recurseGate, hrel, h]
-  · intro child cs h1 h2; simp [recurseGate, hrel, h1, h2]
-  · intro child cs h1 h2; simp [recurseGate, hrel, h1, h2]
+  · intro h; simp [recurseGate, hloc, hf, hrel, h]
+  · intro child cs h1 h2; simp [recurseGate, hloc, hf, hrel, h1, h2]
+  · intro child cs h1 h2; simp [recurseGate, hloc, hf, hrel, h1, h2]
+
+/-- an address that does not fit the scratch buffer of `walk_ports_recurse` (more than 1014
+    characters) makes the walk with a runtime object leave that buffer -/
+theorem walk_scratch_limit (p : PortT) (i : Nat) (b : Buf) (base : List PortT) (path : List Nat)
+    (obj : Obj) (oldEnd : Nat) (loc : Bytes) (hloc : cstrAt b 0 = .ok loc) (hbig : 1014 < loc.length) :
+    recurseGate p i b base path (some obj) oldEnd = .error .oob := by
+  have hf : loc.length + 10 > SCRATCH := by simp only [SCRATCH]; omega
+  simp [recurseGate, hloc, hf]
 
 /-- **walk_prunes_toggle**: the "enabled by" test of a port whose metadata names a toggle of
     the same table (`ask`, row `k`; not a sub-port of the port itself) answers what that toggle
@@ -296,5 +347,41 @@ def exObj : Obj :=
 example : NoGuards exTree = true := by decide
 example : RuntimeDefined exTree (some exObj) := by decide
 example : (prunedList [47] [] (some exObj) exTree 0).length = 18 := by decide
+
+/-- a guarded tree: `self:` (enabled by `on`), `on::T:F`, `a_on::T:F`, `en::i`,
+    `a/` (enabled by `a_on`) → { `self:` (enabled by `t`), `t::T:F`, `v::i` },
+    `x/` (enabled by `x/t`) → { `t::T:F`, `w` },  `s#2/` (enabled by `en`) → { `y` } -/
+def gTree : List STree :=
+  [.leaf ⟨[115, 101, 108, 102], [], false, (some [[]])⟩ (some [58, 101, 110, 97, 98, 108, 101, 100, 32, 98, 121, 0, 61, 111, 110, 0, 0]),
+   .leaf ⟨[111, 110], [], false, (some [[], [84], [70]])⟩ none,
+   .leaf ⟨[97, 95, 111, 110], [], false, (some [[], [84], [70]])⟩ none,
+   .leaf ⟨[101, 110], [], false, (some [[], [105]])⟩ none,
+   .sub ⟨[97], [], true, none⟩ (some [58, 101, 110, 97, 98, 108, 101, 100, 32, 98, 121, 0, 61, 97, 95, 111, 110, 0, 0])
+      [.leaf ⟨[115, 101, 108, 102], [], false, (some [[]])⟩ (some [58, 101, 110, 97, 98, 108, 101, 100, 32, 98, 121, 0, 61, 116, 0, 0]), .leaf ⟨[116], [], false, (some [[], [84], [70]])⟩ none, .leaf ⟨[118], [], false, (some [[], [105]])⟩ none],
+   .sub ⟨[120], [], true, none⟩ (some [58, 101, 110, 97, 98, 108, 101, 100, 32, 98, 121, 0, 61, 120, 47, 116, 0, 0])
+      [.leaf ⟨[116], [], false, (some [[], [84], [70]])⟩ none, .leaf ⟨[119], [], false, none⟩ none],
+   .sub ⟨[115], [([50], [])], true, none⟩ (some [58, 101, 110, 97, 98, 108, 101, 100, 32, 98, 121, 0, 61, 101, 110, 0, 0])
+      [.leaf ⟨[121], [], false, none⟩ none]]
+
+/-- `on` = T, `a_on` = T, `en` = 256; `a/` switches itself off (`t` = F), `x/` is switched off by
+    its own `t` = F, `s0/` is NULL, `s1/` is there -/
+def gObj : Obj :=
+  .mk [([111, 110], .T), ([97, 95, 111, 110], .T), ([101, 110], .i 256)] [([97, 47], some (.mk [([116], .F)] [])), ([120, 47], some (.mk [([116], .F)] [])), ([115, 48, 47], none), ([115, 49, 47], some (.mk [] []))]
+
+example : TreeWF gTree := by decide
+example : multiHashLeafList gTree = false := by decide
+example : GuardsOK gTree gObj := by decide
+example : PathPrefix [47, 122, 122, 47] := ⟨[[122, 122]], by
+  intro c hc; simp at hc; subst hc; exact compOk_of_B (by decide), by decide⟩
+/-- reported: /zz/self /zz/on /zz/a_on /zz/en, the toggle /zz/a/t of the table that switches
+    itself off, the toggle /zz/x/t that switches x/ off, /zz/s1/y (the integer 256 enables) -/
+example : prunedFull [47, 122, 122, 47] [] (toPorts gTree) gTree (some gObj) =
+    [([0], [47, 122, 122, 47, 115, 101, 108, 102]), ([1], [47, 122, 122, 47, 111, 110]),
+     ([2], [47, 122, 122, 47, 97, 95, 111, 110]), ([3], [47, 122, 122, 47, 101, 110]),
+     ([4, 1], [47, 122, 122, 47, 97, 47, 116]), ([5, 0], [47, 122, 122, 47, 120, 47, 116]),
+     ([6, 0], [47, 122, 122, 47, 115, 49, 47, 121])] := by decide
+/-- … and the model reports just that -/
+example : (walkPorts {} (toPorts gTree) (some gObj) ([47, 122, 122, 47] ++ 0 :: List.replicate 12 0x55)).toOption.map (·.1)
+    = some (prunedFull [47, 122, 122, 47] [] (toPorts gTree) gTree (some gObj)) := by decide
 
 end Rtosc.Walk
